@@ -319,3 +319,7 @@ func TestMain(m *testing.M)   { vf.Main(m, "C15") }
 func TestCorpus(t *testing.T) { vf.Corpus(t) }
 func TestProp(t *testing.T)   { vf.RunAll(t) }
 func TestReplay(t *testing.T) { vf.ReplayEnv(t) }
+
+// native fuzz targets (thorough tier): the fuzzer mutates the byte stream that rapid decodes into generator choices
+func FuzzDetect(f *testing.F) { vf.FuzzNamed(f, "C15", "cnf") }
+func FuzzBigGroup(f *testing.F) { vf.FuzzNamed(f, "C15", "big-group-search") }
